@@ -490,6 +490,29 @@ def twin_lists_untouched(out, seed):
             out["cases"].append((f"twins-untouched:{case}", any(len(b) for a in ref for b in a)))
         except Exception as e:                                      # noqa
             out["fail"].append(("Surrogates.twin_surrogates/twins-unchanged", wit, f"raised {type(e).__name__}: {e}"))
+        # a surrogate request, the (public, lazily called) normalisation, the same request again: the second answer is the
+        # one a new object gives for "normalise, then request" - the first request leaves nothing behind that changes it
+        try:
+            data = np.array([3.0 * x + 1.0, 0.5 * x[::-1] - 2.0])
+            s1, s2 = Surrogates(data.copy(), silence_level=3), Surrogates(data.copy(), silence_level=3)
+            np.random.seed(S.QSEED); _random.seed(S.QSEED)                           # noqa: E702
+            s1.twin_surrogates(dim, delay, thr, md)
+            s1.normalize_original_data()
+            np.random.seed(S.QSEED); _random.seed(S.QSEED)                           # noqa: E702
+            a1 = np.asarray(s1.twin_surrogates(dim, delay, thr, md))
+            s2.normalize_original_data()
+            np.random.seed(S.QSEED); _random.seed(S.QSEED)                           # noqa: E702
+            a2 = np.asarray(s2.twin_surrogates(dim, delay, thr, md))
+            out["eval"] += 1
+            t1, t2 = s1.twins(thr, md), s2.twins(thr, md)
+            same_tw = [[list(map(int, b)) for b in a] for a in t1] == [[list(map(int, b)) for b in a] for a in t2]
+            if a1.shape != a2.shape or not np.array_equal(a1, a2) or not same_tw or \
+                    not np.array_equal(np.asarray(s1.embedding), np.asarray(s2.embedding)):
+                out["fail"].append(("Surrogates.twin_surrogates/after-earlier-request-and-normalisation", wit,
+                                    "embedding / twins / seeded surrogates differ from a new object's 'normalise, then request'"))
+        except Exception as e:                                      # noqa
+            out["fail"].append(("Surrogates.twin_surrogates/after-earlier-request-and-normalisation", wit,
+                                f"raised {type(e).__name__}: {e}"))
         try:
             rp = RecurrencePlot(x, threshold=thr, dim=dim, tau=delay, silence_level=3)
             before = S.freeze(rp)
